@@ -460,6 +460,20 @@ static std::string run_keys(const CaseFile &c) {
     WANT(cif_value_set_item_by_key(t, U(a), v1), CIF_OK, "cif_value_set_item_by_key under " + show(a));
     model[na] = a;
     if (!(msg = keys_match(t, model, "after the first set")).empty()) goto done;
+    if (c.geti("stored")) {
+        // keys are matched by NFC equivalence wherever the table lives: store it in a managed CIF, read it back, go on with the copy read back
+        label("keys:stored-and-read-back");
+        cif_tp *kcif = nullptr; cif_block_tp *kblk = nullptr; cif_value_tp *back = nullptr;
+        int r1 = cif_create(&kcif), r2 = r1 == CIF_OK ? cif_create_block(kcif, u"k", &kblk) : r1;
+        int r3 = r2 == CIF_OK ? cif_container_set_value(kblk, u"_first", nullptr) : r2;          // so that _t is not the container's first scalar (another path)
+        int r4 = r3 == CIF_OK ? cif_container_set_value(kblk, u"_t", t) : r3;
+        int r5 = r4 == CIF_OK ? cif_container_get_value(kblk, u"_t", &back) : r4;
+        if (kblk) cif_container_free(kblk);
+        if (kcif) (void) cif_destroy(kcif);
+        if (r5 != CIF_OK) { cif_value_free(back); msg = std::string("storing the table in a CIF and reading it back failed: ") + cm::code_name(r5); goto done; }
+        cif_value_free(t); t = back;
+        if (!(msg = keys_match(t, model, "after a round trip through a managed CIF")).empty()) goto done;
+    }
     for (int pass = 0; pass < 4; pass++) {   // 0: get; 1: set under the probe; 2: set under A again; 3: remove under the probe
         if (pass == 2) {
             WANT(cif_value_set_item_by_key(t, U(a), v1), CIF_OK, "cif_value_set_item_by_key under A again");
@@ -868,6 +882,7 @@ static CaseFile build_keys() {
     if (*g::chance(65)) n = gg::variant(a, 0, true, [&](const ustr &s) { return ok(s) && cm::nfc(s) != na && cm::norm_name(s) == fa; });   // differs in case only
     if (n == a) n = gg::near_miss(a, 0, [&](const ustr &s) { return ok(s) && cm::nfc(s) != na; });
     CaseFile c; c.set("mode", "keys"); c.set("a", ser_u16(a)); c.set("b", ser_u16(b)); c.set("n", ser_u16(n));
+    c.seti("stored", *g::chance(35) ? 1 : 0);   // the table goes through a managed CIF (serialisation) before the probes
     return c;
 }
 static CPS invalid_ingredient() {
